@@ -715,4 +715,149 @@ example : prepareNongeneric [.error 7, .error 8] [.error 9, .ok "z", .ok "z"] = 
 example : prepareNongeneric [] [.ok "z"] = .error .noConnections := by rfl
 example : prepareOnAll [.error 8704, .ok "x", .error 8192] = .ok "x" := by rfl
 
+/-! ## `Session::prepare_batch` (session.rs:1945-1963) -/
+
+/-- what `Session::prepare_batch` makes of one statement: prepared ones as they are; an unprepared one becomes the
+statement prepared from ITS text with ITS config and page size -/
+def SStmtRel (prep : String → Except PErr String) : BStmt → BStmt → Prop
+  | .prepared p, s' => s' = .prepared p
+  | .query q, s' => ∃ id, prep q.text = .ok id ∧ s' = .prepared ⟨id, q.text, q.cfg, q.page, false⟩
+
+private theorem sessionPrepareAll_ok (prep : String → Except PErr String) :
+    ∀ (stmts : List BStmt), (sessionPrepareAll prep stmts).2 = [] →
+      Pointwise (SStmtRel prep) stmts (sessionPrepareAll prep stmts).1 := by
+  intro stmts
+  induction stmts with
+  | nil => intro _; exact .nil
+  | cons s rest ih =>
+    intro h
+    simp only [sessionPrepareAll] at h ⊢
+    split at h
+    · rename_i s' hs
+      refine .cons ?_ (ih h)
+      cases s with
+      | prepared p => simp only [sessionPrepareStmt, Except.ok.injEq] at hs; exact hs.symm
+      | query q =>
+        simp only [sessionPrepareStmt] at hs
+        split at hs
+        · simp at hs
+        · rename_i id hp
+          simp only [Except.ok.injEq] at hs
+          exact ⟨id, hp, hs.symm⟩
+    · simp at h
+
+private theorem sessionPrepareAll_errs (prep : String → Except PErr String) :
+    ∀ (stmts : List BStmt) (e : PErr), e ∈ (sessionPrepareAll prep stmts).2 ↔
+      ∃ q, BStmt.query q ∈ stmts ∧ prep q.text = .error e := by
+  intro stmts
+  induction stmts with
+  | nil => intro e; simp [sessionPrepareAll]
+  | cons s rest ih =>
+    intro e
+    cases s with
+    | prepared p =>
+      simp only [sessionPrepareAll, sessionPrepareStmt, ih e, List.mem_cons]
+      constructor
+      · rintro ⟨q, hq, he⟩; exact ⟨q, Or.inr hq, he⟩
+      · rintro ⟨q, hq | hq, he⟩
+        · cases hq
+        · exact ⟨q, hq, he⟩
+    | query q0 =>
+      simp only [sessionPrepareAll, sessionPrepareStmt]
+      cases hp : prep q0.text with
+      | error e0 =>
+        simp only [List.mem_cons, ih e]
+        constructor
+        · rintro (h | ⟨q, hq, he⟩)
+          · exact ⟨q0, Or.inl rfl, by rw [hp, h]⟩
+          · exact ⟨q, Or.inr hq, he⟩
+        · rintro ⟨q, hq | hq, he⟩
+          · cases hq; rw [hp] at he; cases he; exact Or.inl rfl
+          · exact Or.inr ⟨q, hq, he⟩
+      | ok id =>
+        simp only [ih e, List.mem_cons]
+        constructor
+        · rintro ⟨q, hq, he⟩; exact ⟨q, Or.inr hq, he⟩
+        · rintro ⟨q, hq | hq, he⟩
+          · cases hq; rw [hp] at he; cases he
+          · exact ⟨q, hq, he⟩
+
+/-- SUCCESS: batch type and config untouched; position by position (same length): prepared statements are the same
+objects, every unprepared statement was replaced IN ITS OWN POSITION by the statement the cluster prepared for ITS OWN
+text, with its own config and page size - whatever order the preparations complete in -/
+theorem sessionPrepareBatch_spec (prep : String → Except PErr String) (b b' : Batch)
+    (h : sessionPrepareBatch prep b = .ok b') :
+    b'.ty = b.ty ∧ b'.cfg = b.cfg ∧ Pointwise (SStmtRel prep) b.stmts b'.stmts := by
+  simp only [sessionPrepareBatch] at h
+  split at h
+  · rename_i r heq
+    simp only [Except.ok.injEq] at h
+    subst h
+    have h2 : (sessionPrepareAll prep b.stmts).2 = [] := by rw [heq]
+    have h1 : (sessionPrepareAll prep b.stmts).1 = r := by rw [heq]
+    exact ⟨rfl, rfl, h1 ▸ sessionPrepareAll_ok prep b.stmts h2⟩
+  · simp at h
+
+/-- FAILURE: the call fails iff the cluster refuses (or disagrees on) the text of some unprepared statement, and the
+error it fails with is the error of such a statement -/
+theorem sessionPrepareBatch_error_iff (prep : String → Except PErr String) (b : Batch) :
+    (∃ es, sessionPrepareBatch prep b = .error es) ↔ ∃ q e, BStmt.query q ∈ b.stmts ∧ prep q.text = .error e := by
+  simp only [sessionPrepareBatch]
+  constructor
+  · rintro ⟨es, h⟩
+    split at h
+    · simp at h
+    · rename_i r e rest heq
+      have : e ∈ (sessionPrepareAll prep b.stmts).2 := by rw [heq]; simp
+      obtain ⟨q, hq, he⟩ := (sessionPrepareAll_errs prep b.stmts e).1 this
+      exact ⟨q, e, hq, he⟩
+  · rintro ⟨q, e, hq, he⟩
+    have hm := (sessionPrepareAll_errs prep b.stmts e).2 ⟨q, hq, he⟩
+    split
+    · rename_i r heq; rw [heq] at hm; simp at hm
+    · exact ⟨_, rfl⟩
+
+theorem sessionPrepareBatch_error_is_a_statements (prep : String → Except PErr String) (b : Batch) (es : List PErr)
+    (h : sessionPrepareBatch prep b = .error es) :
+    es ≠ [] ∧ ∀ e ∈ es, ∃ q, BStmt.query q ∈ b.stmts ∧ prep q.text = .error e := by
+  simp only [sessionPrepareBatch] at h
+  split at h
+  · simp at h
+  · rename_i r e rest heq
+    simp only [Except.error.injEq] at h
+    subst h
+    refine ⟨by simp, fun e' he' => (sessionPrepareAll_errs prep b.stmts e').1 (by rw [heq]; exact he')⟩
+
+/-- NO deduplication: the cluster is asked once per unprepared statement (the same text twice = two preparations) -/
+theorem sessionPrepareAsked_spec (stmts : List BStmt) :
+    (sessionPrepareAsked stmts).length = (stmts.filter (fun s => match s with | .query _ => true | .prepared _ => false)).length ∧
+    ∀ t, t ∈ sessionPrepareAsked stmts ↔ ∃ q, BStmt.query q ∈ stmts ∧ q.text = t := by
+  induction stmts with
+  | nil => simp [sessionPrepareAsked]
+  | cons s rest ih =>
+    cases s with
+    | prepared p =>
+      refine ⟨by simpa [sessionPrepareAsked] using ih.1, fun t => ?_⟩
+      simp only [sessionPrepareAsked, ih.2 t, List.mem_cons]
+      constructor
+      · rintro ⟨q, hq, ht⟩; exact ⟨q, Or.inr hq, ht⟩
+      · rintro ⟨q, hq | hq, ht⟩
+        · cases hq
+        · exact ⟨q, hq, ht⟩
+    | query q0 =>
+      refine ⟨by simpa [sessionPrepareAsked] using ih.1, fun t => ?_⟩
+      simp only [sessionPrepareAsked, List.mem_cons, ih.2 t]
+      constructor
+      · rintro (h | ⟨q, hq, ht⟩)
+        · exact ⟨q0, Or.inl rfl, h.symm⟩
+        · exact ⟨q, Or.inr hq, ht⟩
+      · rintro ⟨q, hq | hq, ht⟩
+        · cases hq; exact Or.inl ht.symm
+        · exact Or.inr ⟨q, hq, ht⟩
+
+example : sessionPrepareBatch (fun t => if t == "b" then .error .idsMismatch else .ok (t ++ "#0"))
+    ⟨1, Cfg.default, [.query ⟨"a", Cfg.default, 7⟩, .prepared ⟨"p#0", "p", Cfg.default, 5000, true⟩, .query ⟨"a", Cfg.default, 9⟩]⟩ =
+    .ok ⟨1, Cfg.default, [.prepared ⟨"a#0", "a", Cfg.default, 7, false⟩, .prepared ⟨"p#0", "p", Cfg.default, 5000, true⟩,
+      .prepared ⟨"a#0", "a", Cfg.default, 9, false⟩]⟩ := by rfl
+
 end ScyllaVerif.Props.C14Session
